@@ -161,3 +161,19 @@ package bpv7
 
 // A block with the DTLSR type code carries a *DTLSRBlock once that type is registered (NewDTLSR does so).
 // govc:spec dtlsrTyped(b Bundle) bool = forall j int :: 0 <= j && j < len(b.CanonicalBlocks) ==> (b.CanonicalBlocks[j].Value.BlockTypeCode() == 193 ==> is(b.CanonicalBlocks[j].Value, *DTLSRBlock))
+
+// AddExtensionBlock (proved from its body; callers use the assumed summary above, which adds the position facts that
+// depend on sort.Sort): the block is appended under a number that no block of the bundle carries yet, and the
+// existing blocks keep their numbers and values.
+// govc:func (*Bundle).AddExtensionBlock property C06 C02 C09
+//@ requires block.Value != nil && blocksNonNil(*b)
+//@ let n0 := len(b.CanonicalBlocks)
+//@ atcall sortBlocks: len(b.CanonicalBlocks) == n0 + 1 && b.CanonicalBlocks[n0].Value == block.Value && b.CanonicalBlocks[n0].BlockControlFlags == block.BlockControlFlags && b.CanonicalBlocks[n0].CRCType == block.CRCType
+//@ atcall sortBlocks: forall j int :: 0 <= j && j < n0 ==> b.CanonicalBlocks[j].BlockNumber != b.CanonicalBlocks[n0].BlockNumber
+//@ atcall sortBlocks: forall j int :: 0 <= j && j < n0 ==> b.CanonicalBlocks[j].BlockNumber == old(b.CanonicalBlocks[j].BlockNumber) && b.CanonicalBlocks[j].Value == old(b.CanonicalBlocks[j].Value)
+//@ loop 0 invariant 0 <= i && i <= len(b.CanonicalBlocks) && len(blockNumbers) == i
+//@ loop 0 invariant forall j int :: 0 <= j && j < i ==> blockNumbers[j] == b.CanonicalBlocks[j].BlockNumber
+//@ loop 1 invariant len(blockNumbers) == len(b.CanonicalBlocks)
+//@ loop 1 invariant forall j int :: 0 <= j && j < len(blockNumbers) ==> blockNumbers[j] == b.CanonicalBlocks[j].BlockNumber
+//@ loop 2 invariant 0 <= rangeindex + 1 && rangeindex + 1 <= len(blockNumbers)
+//@ loop 2 invariant forall j int :: 0 <= j && j < rangeindex + 1 ==> blockNumbers[j] != blockNumber
